@@ -55,6 +55,8 @@ def enumerate_cases(tier, seed):
     for comps, fr in systems(tier):
         for k in mult:
             yield ("system", {"comps": comps, "fr": fr, "mult": k})
+    for comps, fr in [(["CCCCO", "CCOCC"], [25, 75]), (["CCCCO", "CCOCC", "CC(C)CO"], [20, 35, 45]), (["C", "CCCC"], [30, 70])]:
+        yield ("system", {"comps": comps, "fr": fr, "mult": mult[0], "spell": "exp"})
 
 
 class NotOnePickPerMolecule(Exception):
@@ -86,7 +88,12 @@ def _eval(kind, data):
         raise HarnessError("components are not distinguishable")
     mmax = max(masses)
     Smass = round((mult + 0.37) * mmax, 3)  # off every multiple of the member masses: no accumulated mass lands on the total
-    text = "".join(f"{c}.|{f}%|" for c, f in zip(comps[:-1], fr[:-1])) + f"{comps[-1]}.|{Smass * fr[-1] / 100.0!r}|"
+    if data.get("spell") == "exp":
+        # the same numbers written in exponent notation (signed and unsigned exponents)
+        pct = lambda x: f"{x / 10.0!r}e1" if x % 2 else f"{x * 10.0!r}e-1"  # noqa
+        text = "".join(f"{c}.|{pct(f)}%|" for c, f in zip(comps[:-1], fr[:-1])) + f"{comps[-1]}.|{Smass * fr[-1] / 1e4!r}e+2|"
+    else:
+        text = "".join(f"{c}.|{f}%|" for c, f in zip(comps[:-1], fr[:-1])) + f"{comps[-1]}.|{Smass * fr[-1] / 100.0!r}|"
     f = [x / 100.0 for x in fr]
     Smass = float(gbigsmiles.System(text).system_mass)  # the total the library derived (public accessor)
 
